@@ -75,7 +75,11 @@ partial def peX : X → PFrame → PFrame
       | .id x => f.access x
       | .short x => f.access x
       | .as _ => f) f
-    let f := ts.foldl (fun f t => f.assignId (targetName t)) f
+    -- at `=`: ids and `{x}` shorthands discard their own counted access; the target of `k as x`
+    -- was never parsed as an expression, so it only becomes a pending assignment (/repo 5baba35)
+    let f := ts.foldl (fun f t => match t with
+      | .as x => { f with pendAsg := ins x f.pendAsg }
+      | t => f.assignId (targetName t)) f
     let ids := f.pendAsg
     let f := es.foldl (fun f e => peX e f) f.beginRhs
     f.finalize.endRhs ids
@@ -83,8 +87,8 @@ partial def peX : X → PFrame → PFrame
   | .call g args, f => args.foldl (fun f e => peX e f) (f.access g)
   | .ifb c t e, f => peBlockX e (peBlockX t (peX c f))
   | .forb v it body, f =>
-    -- the loop variable is registered as assigned when the header is parsed, before the iterable
-    peBlockX body (peX it (directAssign f v))
+    -- the iterable's accesses are finalized, then the loop variable becomes assigned (/repo d2ad1f4)
+    peBlockX body (directAssign (peX it f).finalize v)
   | .whileb c body, f => peBlockX body (peX c f)
   | .switchb arms els, f => (peX els (arms.foldl (fun f a => peX a f) f)).finalize
   | .sarm c e, f => (peX e (peX c f)).finalize
